@@ -86,6 +86,10 @@ class Check:
         if res.foreign is not None and self.adopt:
             f = res.foreign
             for (prop, clause, algo), mine in self.adopt.items():
+                if isinstance(mine, tuple):
+                    mine, needle = mine
+                    if needle not in (f.get("detail") or ""):
+                        continue
                 if f["property"] == prop and (clause is None or f["clause"] == clause) and (algo is None or f["algo"].split(":")[0] == algo):
                     info = dict(f)
                     info["detail"] = "%s [observed by the ledger as %s/%s]" % (f["detail"], f["property"], f["clause"])
@@ -535,7 +539,10 @@ def gen_raw(r, seed):
 class CheckC04(Check):
     prop = "C04"
     design_ref = "DESIGN.md 5.4"
-    oracles = (C04,)
+    # StopOutsideProviso: with a binding depth cap SOO / StoSOO stop proposing points (pull returns None); the judged part of
+    # such a run ends there, quietly - what happens up to that pull (and in its place, should a point come back) is judged
+    oracles = (StopOutsideProviso, C04)
+    judged = {"C04"}
     sizes = {"quick": 6000, "thorough": 150000}
     chunk = 30
     technique = ("deterministic simulation: reward ledger (conservation / exactly-once) kept by the simulated client and diffed against "
@@ -559,8 +566,8 @@ class CheckC04(Check):
         pool = gen.PARTS_BINARY_CHILD if algo == "VROOM" else None
         n = r.choice([100, 128, 200, 300, 400])
         # recommendation queries between rounds and between a pull and its reward (reads on the current tree)
-        sc = gen.base_scenario(r, seed, algo, parts=pool, n=n, cap_mode="big", ok_only=True, sched_prob=0.3, mid_prob=0.5,
-                               neighbour_prob=0.2)
+        sc = gen.base_scenario(r, seed, algo, parts=pool, n=n, cap_mode=r.choice(["big", "big", "any"]), ok_only=True, sched_prob=0.3,
+                               mid_prob=0.5, neighbour_prob=0.2)
         if algo in ("GPO", "PCT", "VPCT"):
             d = derived(sc)
             if d.get("gpo_L_zero"):
@@ -606,15 +613,20 @@ class CheckC05(Check):
             sc["params"]["nu"] = gen.loguniform(r, 0.5, 5)
         if algo in ("HCT", "VHCT", "T_HOO") and r.random() < (0.012 if tier == "quick" else 0.05):
             # long histories: the round counter crosses 1024 and 2048 (refresh epochs, delta-tilde, thresholds of the late epochs)
-            T = r.choice([1100, 1100, 1100, 2100]) if tier == "quick" else r.choice([1100, 2100, 4200])
+            T = r.choice([1100, 1100, 2300, 2300]) if tier == "quick" else r.choice([1100, 2300, 4200])
             sc["rounds"] = T
             sc["budget"] = T
             if algo == "T_HOO":
                 sc["params"]["rounds"] = T
+            elif T > 2000:
+                # thresholds so large that the tree stays tiny: single cells collect more than 1024 (2048) pulls
+                sc["params"]["c"] = gen.loguniform(r, 2.0, 6.0)
+                sc["params"]["nu"] = gen.loguniform(r, 0.2, 1.0)
+                sc["params"]["rho"] = r.uniform(0.3, 0.7)
+                sc["partition"] = dict(r.choice(gen.PARTS_BINARY_CHILD))     # two cells share the pulls
             else:
-                # thresholds that keep the tree small enough to re-derive every round; the larger ones leave single cells
-                # with more than 1024 pulls
-                sc["params"]["c"] = gen.loguniform(r, 0.08, 5.0)
+                # thresholds that keep the tree small enough to re-derive every round
+                sc["params"]["c"] = gen.loguniform(r, 0.08, 1.0)
             sc["schedule"] = [s for s in sc.get("schedule") or [] if s["after"] <= T]
             sc["neighbours"] = []
         return sc
@@ -935,7 +947,10 @@ class CheckC13(Check):
     design_ref = "DESIGN.md 5.13"
     oracles = (Ledger, C13)
     judged = {"C13"}
-    adopt = {("C04", "credit-set", "VROOM"): "credit-path", ("C04", "credit-value", "VROOM"): "credit-path"}
+    # np.random.choice (the seam keeps NumPy's own validation) rejecting the weights VROOM hands it is this property's business:
+    # the vector passed is not the distribution 1/(h*r*C)
+    adopt = {("C04", "credit-set", "VROOM"): "credit-path", ("C04", "credit-value", "VROOM"): "credit-path",
+             ("C01", "raise", "VROOM"): ("normalisation", "probabilities")}
     sizes = {"quick": 3000, "thorough": 30000}
     chunk = 4
     technique = ("deterministic simulation with the simulator owning np.random.choice/randint/uniform: the probability vector passed, the "
@@ -1050,7 +1065,7 @@ def _twin_base(r, seed, algo, **kw):
     pool = kw.pop("parts", None)
     if algo == "VROOM":
         pool = gen.PARTS_BINARY_CHILD
-    sc = gen.base_scenario(r, seed, algo, parts=pool, ok_only=True, cap_mode="big", **kw)
+    sc = gen.base_scenario(r, seed, algo, parts=pool, ok_only=True, cap_mode=kw.pop("cap_mode", "big"), **kw)
     if algo in ("GPO", "PCT", "VPCT") and derived(sc).get("gpo_L_zero"):
         sc["params"]["rhomax"] = 0.9
     if algo == "POO":
@@ -1086,7 +1101,9 @@ class CheckC14(TwinCheck):
     def generate(self, r, seed, tier):
         algo = r.choice(gen.ALGOS_ALL)
         n = r.choice([100, 128, 200])
-        A = _twin_base(r, seed, algo, n=n, real_prob=0.7, sched_prob=0.3 if algo in ("T_HOO", "HCT", "VHCT", "Zooming", "POO") else 0.0)
+        # SOO / StoSOO also with depth caps that bind (pull then returns no point; the logs must still agree)
+        A = _twin_base(r, seed, algo, n=n, real_prob=0.7, sched_prob=0.3 if algo in ("T_HOO", "HCT", "VHCT", "Zooming", "POO") else 0.0,
+                       cap_mode="any" if algo in ("SOO", "StoSOO") and r.random() < 0.35 else "big")
         A["rounds"] = min(A["rounds"], 200)
         if r.random() < 0.45 and algo != "VROOM":
             # bias towards RNG-free partitions so that the interleaving part runs often
